@@ -4,7 +4,7 @@ from ..engine import AnchorMissing, loop_models, iter_chain
 from ..poly import poly, fact_nf, GT0, GE0, EQ0, NE0
 from ..paths import loop_system, PathView
 from ..describe import describe
-from ..idioms import blank_fact
+from ..idioms import FirstIter, blank_fact
 from .common import configs_for
 from .util import Rule, guarded, site_of_block
 from . import models
@@ -45,16 +45,15 @@ def _check(prog, rep):
     P = ("param", 2, body.arg_names.get(2, "_2"))
     res = models.returned_string_root(prog, body)
     lms = [lm for lm in loop_models(prog, body) if lm.kind == "iter"]
-    main = None
+    main = fi = None
     for lm in lms:
-        src = lm.source
-        if src and src[0] == "call" and src[1] == "Iterator::enumerate":
-            inner = src[2][0]
-            if inner[0] == "call" and inner[1] == "str::split_terminator" and inner[2][0] == S and inner[2][1] == ("char", 10):
-                main = lm
+        f = FirstIter(prog, body, lm)
+        inner = f.source
+        if inner and inner[0] == "call" and inner[1] == "str::split_terminator" and inner[2][0] == S and inner[2][1] == ("char", 10):
+            main, fi = lm, f
     if main is None:
-        raise AnchorMissing("indent: no loop over s.split_terminator('\\n').enumerate() (found %s)" % [D(l.source) for l in lms if l.source])
-    idx, line = main.item_proj(0), main.item_proj(1)
+        raise AnchorMissing("indent: no loop over s.split_terminator('\\n') (found %s)" % [D(l.source) for l in lms if l.source])
+    line = fi.element
     NL = ("char", 10)
     trans = loop_system(prog, body, main, [], [res])
     cases = set()
@@ -64,11 +63,7 @@ def _check(prog, rep):
         evs = [(n, a[1]) for (_b, n, a, _r) in tr.events]
         site = site_of_block(body, tr.events[0][0]) if tr.events else body.span
         nfs = [fact_nf(f) for f in tr.facts if f[0][0] == "cmp"]
-        first = None
-        if GT0(poly(idx)) in nfs:
-            first = False
-        elif GE0(-poly(idx)) in nfs or EQ0(poly(idx)) in nfs:
-            first = True
+        first = fi.verdict(tr.facts)
         blank = None
         for f in tr.facts:
             b = blank_fact(prog, body, f, line)
